@@ -623,6 +623,9 @@ func (g *c07Gen) gen(n int) []string {
 	if n >= 2 {
 		for _, e := range g.gen(n - 1) {
 			out = append(out, "$a = "+wrap(e), "$b = "+wrap(e), "("+e+")")
+			if strings.HasPrefix(e, "$") && strings.Contains(e, " = ") && !strings.Contains(e, ",") {
+				out = append(out, "$b = "+e) // unparenthesised chain: = associates to the right
+			}
 		}
 	}
 	if n == 3 {
@@ -651,7 +654,8 @@ func (g *c07Gen) gen(n int) []string {
 }
 
 var c07Pool = []string{"$a", "$a = 1", "$a = $b", "$b = [$a, x]", "$a = 2, $b = $a", "[$a, $b, x]", "rec($a = 3, $a)", "$a ? ($b = 1) : ($b = 2)", "x", "$b = x + 1", "$a = [$a, $a]", "rec($b, $b = 7), $b", "$c = $a, $a = $b, $b = $c", "[$a = 1, $a = 2, $a]", "$a = 1 + 2", "$b = 2 + 2", "[1 + 1, 2 + 2, $a]",
-	"$a = 1, sp($a = 5, [$a, 7]...)", "sp($b = 2, [$b, $b = 3]...), $b", "sp($a, [$a = 9, $a]...)", "sp(rec(1, 2), [rec(3, 4), $a]...)"}
+	"$a = 1, sp($a = 5, [$a, 7]...)", "sp($b = 2, [$b, $b = 3]...), $b", "sp($a, [$a = 9, $a]...)", "sp(rec(1, 2), [rec(3, 4), $a]...)",
+	"$a = $b = 3", "$a = $b = $a = 1, [$a, $b]", "[$a = $b = 2, $a, $b]", "rec($a = $b = 5, $b), $a", "x ? $a = $b = 7 : 0, $b"}
 
 func runC07(w *eng.W) {
 	W = w
